@@ -1048,7 +1048,7 @@ mod pipeline {
         fn setup_communicate(mut self) -> PopenResult<(Communicator, Vec<Popen>)> {
             assert!(self.cmds.len() >= 2);
 
-            let (err_read, err_write) = crate::popen::make_pipe()?;
+            let (err_read, err_write) = crate::popen::make_internal_pipe()?;
             // our end of the pipe must not leak into the commands
             crate::popen::set_inheritable(&err_read, false)?;
             // Nor may the write end, other than as their standard error
